@@ -255,9 +255,12 @@ def _has_quant(t):
     return False
 
 
-def _solve(hyps, goal, timeout_ms, ematch_only=False):
+def _solve(hyps, goal, timeout_ms, ematch_only=False, seed=0):
     s = z3.Solver()
     s.set("timeout", timeout_ms)
+    if seed:
+        s.set("smt.random_seed", seed)
+        s.set("sat.random_seed", seed)
     if ematch_only:
         if os.environ.get("VERIF_AC", "1") == "0":
             s.set("auto_config", False)
@@ -289,6 +292,16 @@ def check(hyps, goal, timeout_ms, want_model=False, axioms=()):
     short = max(1000, min(4000, timeout_ms // 4))
     s, r = _solve(full, goal, short, ematch_only=True)
     how = "ematch"
+    if r == z3.unknown:
+        # e-matching is sensitive to term order: two more seeds before falling back to MBQI
+        for sd in (7, 23):
+            try:
+                s2, r2 = _solve(full, goal, max(1000, short // 2), ematch_only=True, seed=sd)
+            except TypeError:       # an extension wrapped _solve with the old signature
+                break
+            if r2 == z3.unsat:
+                s, r, how = s2, r2, "ematch-seed%d" % sd
+                break
     if r != z3.unsat:
         s, r = _solve(full, goal, short)
         how = "all"
